@@ -1275,7 +1275,7 @@ pub fn run(pc: &PropCtx) {
     pc.bound("max_entries_per_tree", serde_json::json!(ENTRY_CAP));
     pc.bound("watchdog_s", serde_json::json!(WATCHDOG.as_secs()));
     let all = pc.tier == crate::runner::Tier::Thorough;
-    let cases: u32 = pc.tier.pick(1_500, 30_000);
+    let cases: u32 = pc.tier.pick(4_000, 40_000);
     pc.run_tape("three_way", cases, (96, 600), |t| gen_case(t, all), check);
     let n = UNCONFIRMED_TIMEOUTS.load(Ordering::SeqCst);
     if n > 0 {
